@@ -248,22 +248,51 @@ def P13(ctx, facts):
 
 # ------------------------------------------------------------------ P9
 
-def P9(ctx, facts):
-    f = facts.fn("client::pool::PoolInner::push")
+def P9_aspects(*aspects):
+    def rule(ctx, facts):
+        return P9(ctx, facts, aspects=aspects)
+    return rule
+
+
+def P9(ctx, facts, aspects=("marker", "waiters-first", "delivered-or-drained", "payload", "queue-kept")):
+    """aspects: marker (every push clears the in-flight marker), waiters-first (idle only after the queue is empty),
+    delivered-or-drained (the waiter walk ends only after delivery / draining), payload (what waiters receive),
+    queue-kept (queued senders leave the queue only when served, closed or cancelled).
+
+    The rules follow the *waiter walk* (the PoolInner method that pops queued senders) and the *idle entrances*
+    (PoolInner methods calling IdleConnections::push) wherever they live, so extracting a helper keeps them decided."""
+    import pool
+    A = set(aspects)
+    inner = [g for g in facts.fns.values() if g.nkey.startswith("client::pool::PoolInner::") and "{closure" not in g.nkey]
+    walks = [g for g in inner if any((c.t.get("argtys") or [""])[0].startswith("&mut std::collections::" + SENDER_Q) for c in g.calls(VDQ + "::pop_front"))]
+    if len(walks) != 1:
+        return ctx.missing("PoolInner|waiter-walk", "expected exactly one PoolInner method popping queued senders, found %s" % [g.nkey for g in walks])
+    f = walks[0]
     ctx.touched(f)
-    rem = calls_on_field(f, "connecting", HSET + "::remove")
-    ctx.floor("PoolInner::push|marker-remove", len(rem), 1, "connecting.remove in PoolInner::push")
-    ok, w = f.must_pass(0, f.returns, {c.bb for c in rem})
-    ctx.check(ok, "PoolInner::push|marker-cleared", "every push clears the in-flight marker of its token on every path",
-              "PoolInner::push can return without clearing the in-flight marker", f.where(), f.path_desc(w))
-    for c in rem:
-        tr = sig(f.roots(c.args[1]))
-        ctx.check(tr and all(r.kind == "arg" and r.desc == "token" for r in tr), "PoolInner::push|marker-own-token",
-                  "the marker cleared is the pushed token's", "marker removed for %s" % sorted(map(repr, tr)), c.where())
+    W = f.nkey.replace("client::pool::", "")
+    entrances = pool.entrance_fns(facts)
+    ctx.floor("PoolInner|idle-entrances", len(entrances), 1, "PoolInner methods with an idle-list entrance")
+    if "marker" in A:
+        rem_w = calls_on_field(f, "connecting", HSET + "::remove")
+        w_clears = bool(rem_w) and f.must_pass(0, f.returns, {c.bb for c in rem_w})[0]
+        for e in entrances:
+            rem = calls_on_field(e, "connecting", HSET + "::remove")
+            through = {c.bb for c in rem}
+            if w_clears and e.key != f.key:
+                through |= {c.bb for c in e.calls(f.nkey)}
+            ok, w = e.must_pass(0, e.returns, through) if through else (False, e.path(0, e.returns))
+            ctx.check(ok, "%s|marker-cleared" % e.nkey.replace("client::pool::", ""), "every hand-back clears the in-flight marker of its token on every path",
+                      "a connection can be handed back without clearing the in-flight marker", e.where(), e.path_desc(w))
+            for c in rem:
+                tr = sig(e.roots(c.args[1]))
+                ctx.check(tr and all(r.kind == "arg" and r.desc == "token" for r in tr), "%s|marker-own-token" % e.nkey.replace("client::pool::", ""),
+                          "the marker cleared is the pushed token's", "marker removed for %s" % sorted(map(repr, tr)), c.where())
+    if "queue-kept" in A:
+        queue_kept(ctx, facts)
     gm = calls_on_field(f, "waiting", HMAP + "::get_mut", HMAP + "::get", HMAP + "::remove", HMAP + "::entry")
-    pf = f.calls(VDQ + "::pop_front")
-    ctx.floor("PoolInner::push|waiter-queue", len(gm), 1, "lookup of the token's waiter queue")
-    ctx.floor("PoolInner::push|pop_front", len(pf), 1, "VecDeque::pop_front on the waiter queue")
+    pf = [c for c in f.calls(VDQ + "::pop_front") if (c.t.get("argtys") or [""])[0].startswith("&mut std::collections::" + SENDER_Q)]
+    ctx.floor("%s|waiter-queue" % W, len(gm), 1, "lookup of the token's waiter queue")
+    ctx.floor("%s|pop_front" % W, len(pf), 1, "VecDeque::pop_front on the waiter queue")
 
     def queue_empty(lab):
         if lab.kind != "variant" or lab.variants != {"None"}:
@@ -271,14 +300,23 @@ def P9(ctx, facts):
         site = f.call_defining(lab.place["l"])
         return site is not None and (site.bb in {c.bb for c in gm} or site.bb in {c.bb for c in pf})
 
-    idle_sites = [c for c in f.calls("client::pool::idle::IdleConnections::push")]
-    ctx.floor("PoolInner::push|idle-entrance", len(idle_sites), 1, "idle-list entrance in PoolInner::push")
-    for c in idle_sites:
-        ok, w = f.guarded(c.bb, queue_empty)
-        ctx.check(ok, "PoolInner::push|waiters-before-idle", "a connection goes to the idle list only once the token's waiter queue is empty or absent",
-                  "a connection can go idle while waiters are still queued", c.where(), f.path_desc(w))
+    if "waiters-first" in A:
+        for e in entrances:
+            for c in e.calls("client::pool::idle::IdleConnections::push"):
+                if e.key == f.key:
+                    ok, w = f.guarded(c.bb, queue_empty)
+                    ctx.check(ok, "%s|waiters-before-idle" % W, "a connection goes to the idle list only once the token's waiter queue is empty or absent",
+                              "a connection can go idle while waiters are still queued", c.where(), f.path_desc(w))
+                else:
+                    wc = e.calls(f.nkey)
+                    ok, w = e.must_pass(0, [c.bb], {x.bb for x in wc}) if wc else (False, None)
+                    rr = e.roots(c.args[1], through_calls=False)
+                    own = any(r.kind == "call" and r.site.bb in {x.bb for x in wc} for r in rr)
+                    ctx.check(ok and own, "%s|waiters-before-idle" % e.nkey.replace("client::pool::", ""),
+                              "the idle entrance is reached only after the waiter walk, with the connection the walk gave back (ownership: it was not delivered)",
+                              "a connection can go idle without having been offered to the queued waiters", c.where(), e.path_desc(w))
     sends = f.calls("tokio::sync::oneshot::Sender::send")
-    ctx.floor("PoolInner::push|send", len(sends), 2, "oneshot sends to waiters")
+    ctx.floor("%s|send" % W, len(sends), 2, "oneshot sends to waiters")
 
     def exclusive_send(site):
         # the payload carries the pushed connection itself (not its reuse() clone)
@@ -293,24 +331,66 @@ def P9(ctx, facts):
         if lab.kind == "variant" and "Ok" in lab.variants and "Err" not in lab.variants:
             return exclusive_send(f.call_defining(lab.place["l"]))
         if lab.kind == "bool" and lab.cond.kind == "call" and lab.cond.site.matches(r"Result.*::is_(ok|err)$"):
-            inner = f.call_defining(op_place(lab.cond.site.args[0])["l"]) if op_place(lab.cond.site.args[0]) else None
-            if exclusive_send(inner):
+            innerc = f.call_defining(op_place(lab.cond.site.args[0])["l"]) if op_place(lab.cond.site.args[0]) else None
+            if exclusive_send(innerc):
                 is_ok = norm(lab.cond.site.name).endswith("is_ok")
                 return lab.value is True if is_ok else lab.value is False
         return False
 
-    good = set(f.edges_where(queue_empty)) | set(f.edges_where(delivered))
-    p = f.path(0, f.returns, avoid_edges=good)
-    ctx.check(p is None, "PoolInner::push|returns-only-delivered-or-drained",
-              "push returns only after delivering the connection to a waiter or draining the waiter queue",
-              "push can return with waiters queued and the connection undelivered", f.where(), f.path_desc(p))
+    if "delivered-or-drained" in A:
+        good = set(f.edges_where(queue_empty)) | set(f.edges_where(delivered))
+        p = f.path(0, f.returns, avoid_edges=good)
+        ctx.check(p is None, "%s|returns-only-delivered-or-drained" % W,
+                  "the waiter walk ends only after delivering the connection to a waiter or draining the waiter queue",
+                  "the waiter walk can end with waiters queued and the connection undelivered", f.where(), f.path_desc(p))
     # what is sent: the pushed connection (exclusive) or its reuse() clone (shared)
-    for c in sends:
+    for c in sends if "payload" in A else []:
         rr = f.roots(c.args[1], through_calls=False)
         pooled = [r for r in rr if r.kind == "arg" and r.desc == "connection"] or \
                  [r for r in rr if r.kind == "call" and r.site.is_("client::pool::PoolableConnection::reuse")]
-        ctx.check(bool(pooled), "PoolInner::push|send-payload", "waiters receive the pushed connection or its reuse() clone",
+        ctx.check(bool(pooled), "%s|send-payload" % W, "waiters receive the pushed connection or its reuse() clone",
                   "send payload roots: %s" % sorted(map(repr, rr)), c.where())
+
+
+SENDER_Q = "VecDeque<(tokio::sync::oneshot::Sender<client::pool::Pooled<"
+
+
+def queue_kept(ctx, facts):
+    """Queued senders leave `waiting[token]` only by being served (pop_front in push) or released with their
+    attempt (retain in cancel_connection); a whole queue leaves the map only when it is empty."""
+    n = 0
+    for g in facts.fns.values():
+        if not g.nkey.startswith(("client::pool", "<client::pool")):
+            continue
+        for c in g.calls():
+            tys = c.t.get("argtys") or [""]
+            t0 = tys[0]
+            m = norm(c.name).split("::")[-1]
+            if t0.startswith("&mut std::collections::HashMap<client::pool::key::Token, std::collections::" + SENDER_Q[:8]) and SENDER_Q[8:] in t0:
+                n += 1
+                if m in ("get_mut", "get", "entry", "contains_key", "len", "is_empty"):
+                    ctx.ok("waiting|%s|%s" % (g.nkey, m), "waiter map accessed by reference (%s): queued senders stay registered" % m, c.where())
+                elif m == "remove":
+                    # removing a whole queue is only harmless when it is known to be empty
+                    okg, w = g.guarded(c.bb, lambda lab: lab.kind == "bool" and lab.value is True and lab.cond.kind == "call" and lab.cond.site.matches(r"VecDeque.*::is_empty$"))
+                    ctx.check(okg, "waiting|%s|remove" % g.nkey, "a waiter queue is removed from the map only when empty",
+                              "a waiter queue is taken out of the map while it may still hold senders: an early return drops other requests' registrations (they lose pre-emption and dial again)",
+                              c.where(), g.path_desc(w))
+                else:
+                    ctx.bad("waiting|%s|%s" % (g.nkey, m), "waiter map mutated through %s" % norm(c.name), c.where())
+            elif t0.startswith("&mut std::collections::" + SENDER_Q):
+                n += 1
+                allowed = {"client::pool::Pool::checkout": {"push_back"}, "client::pool::PoolInner::cancel_connection": {"retain", "retain_mut"}}
+                in_inner = g.nkey.startswith("client::pool::PoolInner::") and "{closure" not in g.nkey
+                ok = m in allowed.get(g.nkey, set()) or m in ("len", "is_empty", "iter") or (in_inner and m == "pop_front")
+                ctx.check(ok, "waiter-queue|%s|%s" % (g.nkey, m), "queue of senders: %s in %s" % (m, g.nkey.split("::")[-1]),
+                          "queued senders are removed / reordered through %s in %s" % (m, g.nkey), c.where())
+        # an owned queue that goes out of scope drops every sender in it
+        for b in g.live:
+            t = g.term(b)
+            if t["k"] == "drop" and t["pty"].startswith("std::collections::" + SENDER_Q):
+                ctx.bad("waiter-queue|%s|dropped" % g.nkey, "a queue of waiting senders is owned and dropped here", g.where(b))
+    ctx.floor("waiter-queue|accesses", n, 4, "accesses to the waiter map / queues")
 
 
 # ------------------------------------------------------------------ P8
@@ -399,7 +479,16 @@ def P8(ctx, facts):
 
 # ------------------------------------------------------------------ P10 / P11
 
-def P10(ctx, facts):
+def P10_aspects(*aspects):
+    def rule(ctx, facts):
+        return P10(ctx, facts, aspects=aspects)
+    return rule
+
+
+def P10(ctx, facts, aspects=("sites", "released", "pure-waiter", "spawn")):
+    """aspects: sites (who sets / clears the marker), released (the owner's drop continues or cancels),
+    pure-waiter (a checkout that only waited never cancels), spawn (the delayed checkout is what is spawned)."""
+    A = set(aspects)
     # who sets the marker
     sites = []
     for g in facts.fns.values():
@@ -408,7 +497,7 @@ def P10(ctx, facts):
             if tys and "HashSet<client::pool::key::Token" in tys[0]:
                 sites.append(c)
     ctx.floor("marker|insert-sites", len(sites), 2, "sites setting the in-flight marker")
-    for c in sites:
+    for c in sites if "sites" in A else []:
         ctx.check(c.fn.nkey in ("client::pool::Pool::checkout", "client::pool::PoolInner::connected_in_handshake"),
                   "marker|insert-in|%s" % c.fn.nkey, "marker set in a known place", "marker set in %s" % c.fn.nkey, c.where())
     rem_sites = []
@@ -417,9 +506,9 @@ def P10(ctx, facts):
             tys = c.t.get("argtys") or []
             if tys and "HashSet<client::pool::key::Token" in tys[0]:
                 rem_sites.append(c)
-    for c in rem_sites:
-        ctx.check(c.fn.nkey in ("client::pool::PoolInner::push", "client::pool::PoolInner::cancel_connection"),
-                  "marker|remove-in|%s" % c.fn.nkey, "marker cleared in push / cancel_connection", "marker cleared in %s" % c.fn.nkey, c.where())
+    for c in rem_sites if "sites" in A else []:
+        ctx.check(c.fn.nkey.startswith("client::pool::PoolInner::") and "{closure" not in c.fn.nkey,
+                  "marker|remove-in|%s" % c.fn.nkey, "marker cleared inside PoolInner (hand-back / cancel_connection)", "marker cleared in %s" % c.fn.nkey, c.where())
     ctx.floor("marker|remove-sites", len(rem_sites), 2, "sites clearing the in-flight marker")
     # pinned drop pairing
     d = checkout_drop(facts)
@@ -445,22 +534,26 @@ def P10(ctx, facts):
     for (a, b) in ex_edges:
         good_ex.add((a, b))
     try:
+        if "released" not in A:
+            raise StopIteration
         reached, n = AbsPaths(d).explore(0, stop_blocks=through, avoid_edges=good_ex)
         rets = [r for r in d.returns if r in reached]
         # the first lock (returning the unused connection) also has a None edge; only paths that skip *both* cancel and spawn matter
         ctx.check(not rets, "Checkout::drop|marker-released",
                   "every feasible path through the pinned drop continues the attempt in the background, cancels the marker, or is a pure waiter / has no pool",
                   "the pinned drop can finish without continuing or cancelling the attempt (marker leak: later requests wait forever)", d.where())
+    except StopIteration:
+        pass
     except AbsPaths.Undecided as e:
         ctx.undecided("Checkout::drop|marker-released", str(e))
-    for c in cancel:
+    for c in cancel if "pure-waiter" in A else []:
         ok, w = d.guarded(c.bb, lambda lab: lab.kind == "variant" and (lab.adt or "").endswith("InnerCheckoutConnecting") and "Waiting" not in lab.variants)
         ctx.check(ok, "Checkout::drop|pure-waiter-does-not-cancel", "cancel_connection is not reached for a checkout that only waited on another attempt",
                   "a pure waiter's drop clears the marker owned by the connecting checkout", c.where(), d.path_desc(w))
         tr = sig(d.roots(c.args[1]))
         ctx.check(tr and all(r.kind == "arg" and r.desc.endswith("token") for r in tr), "Checkout::drop|cancel-own-token",
                   "the marker cancelled is the checkout's own token's", "cancel token roots %s" % sorted(map(repr, tr)), c.where())
-    for c in spawn:
+    for c in spawn if "spawn" in A else []:
         ok, w = d.guarded(c.bb, L_variant(d, "Some", of_call="client::pool::checkout::Checkout::as_delayed"))
         ctx.check(ok, "Checkout::drop|spawn-delayed", "the background task is spawned exactly for the checkout returned by as_delayed()",
                   "spawn not guarded by as_delayed() == Some", c.where(), d.path_desc(w))
@@ -639,7 +732,8 @@ def P15(ctx, facts):
                   "new type %s can hold a pooled connection but has no release obligation" % path, adt.get("span"))
     ctx.floor("holders", n, 6, "types in client::pool that can hold a connection")
     d = checkout_drop(facts)
-    pushes = d.calls("client::pool::PoolInner::push")
+    import pool
+    pushes = d.calls(*[e.nkey for e in pool.entrance_fns(facts)]) if pool.entrance_fns(facts) else []
     ctx.floor("Checkout::drop|returns-unused", len(pushes), 1, "hand-back of an unused connection in the pinned drop")
     for c in pushes:
         rr = d.roots(c.args[2])
